@@ -4,7 +4,7 @@
 
 #![warn(missing_docs)]
 
-use chrono::prelude::{DateTime, Utc};
+use chrono::prelude::{DateTime, Datelike, Utc};
 use msi::{Package, Select};
 use safer_ffi::prelude::*;
 use std::{io, path::Path};
@@ -104,7 +104,13 @@ fn get_information(path: char_p::Ref<'_>) -> MsiInformation {
                     if let Some(time) = package.summary_info().creation_time()
                     {
                         let datetime: DateTime<Utc> = time.into();
-                        datetime.to_rfc2822().into()
+                        // RFC 2822 can only represent the years 0 to 9999
+                        // (`to_rfc2822` panics for any other year).
+                        if (0..=9999).contains(&datetime.year()) {
+                            datetime.to_rfc2822().into()
+                        } else {
+                            "".into()
+                        }
                     } else {
                         "".into()
                     }
